@@ -369,5 +369,9 @@ SpecsPrefer(s) ==
     Sp("LB", "v4", "P", "", {"tcp80"}, "Cluster", "x", <<>>, ""),      \* PreferDualStack on a single-stack cluster (one clusterIP)
     V6First(Sp("LB", "dual", "P", "", {"tcp80"}, "Cluster", "x", <<>>, "")),
     V6First(Sp("LB", "dual", "R", "", {"tcp80"}, "Cluster", "x", <<>>, "")) }
+(* a PreferDualStack Service gains its second address, the write fails, the Service is made single-stack *)
+SpecsPreferDown(s) == { Plain, Sp("LB", "dual", "P", "", {"tcp80"}, "Cluster", "x", <<>>, ""),
+                        Sp("LB", "v6", "S", "", {"tcp80"}, "Cluster", "x", <<>>, "") }
+InitPreferOne == [s \in {"s1"} |-> Sp("LB", "dual", "P", "", {"tcp80"}, "Cluster", "x", <<>>, "")]
 InitInnocent == [s \in {"s1"} |-> Innocent]
 =============================================================================
